@@ -15,13 +15,15 @@ import GIV.Lemmas.TsLifeRef
 import GIV.Lemmas.TsLifeRun
 import GIV.Lemmas.TsLifeUnpack
 import GIV.Lemmas.TsLifeFrame
+import GIV.Lemmas.TsLifeNames
 
 namespace GIV.C04
 open GIV GIV.TsLife
 
 instance : FEnv := ⟨rfl⟩
-instance : FRef := ⟨rfl, rfl, rfl, rfl, rfl, rfl, rfl, rfl⟩
+instance : FRef := ⟨rfl, rfl, rfl, rfl, rfl, rfl, rfl⟩
 instance : FDefer := ⟨rfl⟩
+instance : FNames := ⟨rfl⟩
 instance : FRun := ⟨rfl, rfl, rfl, rfl, rfl, rfl, rfl, rfl⟩
 
 /-! ### the environment is built from scratch -/
@@ -139,6 +141,42 @@ theorem unpack_failure_fails : ∀ (cfg : Cfg) (files : List Entry) (ops : List 
   | none => cases h
   | some x => rfl
 
+/-! ### every script gets a work directory of its own -/
+
+/-- For every list of script files of one RunT call (any base names: equal ones with `.txt` and
+`.txtar`, names that already contain `#1`, in any order): the search for a free name always ends,
+the names given to the subtests are pairwise distinct, there is one per file, each is the file's
+base name or that name followed by `#i`; hence the work directories `<root>/script-<name>` are
+pairwise distinct — no two scripts share one. -/
+theorem names_unique : ∀ (files : List String),
+    ∃ names, assignNames (files.map scriptBase) = some names ∧ names.Nodup ∧ names.length = files.length ∧
+      (∀ k (hk : k < names.length) (hf : k < files.length), ∃ j, names[k] = cand (scriptBase files[k]) j) ∧
+      ∀ root, (names.map (workdirOf root)).Nodup := by
+  intro files
+  have hs := assignFrom_isSome (files.map scriptBase) []
+  cases h : assignFrom [] (files.map scriptBase) with
+  | none => simp [h] at hs
+  | some names =>
+    obtain ⟨a, _, c, d⟩ := assignFrom_spec (files.map scriptBase) [] h
+    refine ⟨names, h, a, by simpa using c, ?_, ?_⟩
+    · intro k hk hf
+      obtain ⟨j, hj⟩ := d k hk (by simpa using hf)
+      exact ⟨j, by simpa using hj⟩
+    · intro root
+      simp only [List.Nodup, List.pairwise_map] at a ⊢
+      refine a.imp ?_
+      intro x y hne heq
+      apply hne
+      unfold workdirOf at heq
+      have h1 : root ++ ("/" ++ (Gen.TsLife.workdirPrefix ++ x)) = root ++ ("/" ++ (Gen.TsLife.workdirPrefix ++ y)) := by
+        simpa [String.append_assoc] using heq
+      exact append_left_cancel_str (append_left_cancel_str (append_left_cancel_str h1))
+
+example : assignNames (["foo#1.txt", "foo.txt", "foo.txtar"].map scriptBase) = some ["foo#1", "foo", "foo#2"] := by decide +kernel
+-- the situation of the comment in RunT: a/foo.txt, b/foo.txtar, c/foo#1.txt
+example : assignNames (["foo.txt", "foo.txtar", "foo#1.txt"].map scriptBase) = some ["foo", "foo#1", "foo#1#1"] := by decide +kernel
+example : assignNames ["x", "x", "x#1", "x"] = some ["x", "x#1", "x#1#1", "x#2"] := by decide +kernel
+
 /-! ### scripts that stay inside their work directory do not interfere -/
 
 /-- The shared temporary root as one tree whose first path element is a work directory's name: a
@@ -180,26 +218,45 @@ def exCfg (coe : Bool) : Cfg := ⟨coe, false, false, [("PATH", "/bin")], "/t", 
 /-- For every configuration, archive and script over the model's vocabulary — whichever way the
 run ends (setup failure, failing line, FailNow at the end under ContinueOnError, skip, stop, end of
 script): the deferred functions (registered by Setup through `Env.Defer` and by commands through
-`TestScript.Defer`) are called in reverse registration order, each exactly once. -/
+`TestScript.Defer`) are called in reverse registration order, each exactly once — also when some
+of them do not return normally (`.regDefer id ab` with `ab` = FailNow / Skip on the T, i.e.
+runtime.Goexit, or a panic): the older functions still run, because each link is
+`defer old(); f()`. -/
 theorem defer_lifo : ∀ (cfg : Cfg) (files : List Entry) (ops : List Op),
     defsOf (runScript cfg files ops).trace = (runScript cfg files ops).registered.reverse :=
   fun cfg files ops => (runScript_spec cfg files ops).1
 
 -- a failing line, a skip, a stop, the end of the script, ContinueOnError, a failing setup
-example : defsOf (runScript (exCfg false) [] [.regDefer 1, .regDefer 2, .failLine, .regDefer 3]).trace = [2, 1, 8, 7] := by decide +kernel
-example : defsOf (runScript (exCfg false) [] [.regDefer 1, .skip, .regDefer 3]).trace = [1, 8, 7] := by decide +kernel
-example : defsOf (runScript (exCfg false) [] [.regDefer 1, .stop, .regDefer 3]).trace = [1, 8, 7] := by decide +kernel
-example : defsOf (runScript (exCfg true) [] [.regDefer 1, .failLine, .regDefer 3]).trace = [3, 1, 8, 7] := by decide +kernel
-example : (runScript (exCfg false) [(["a"], []), (["a", "b"], [])] [.regDefer 1]).verdict = .fail ∧
-    defsOf (runScript (exCfg false) [(["a"], []), (["a", "b"], [])] [.regDefer 1]).trace = [] := by decide +kernel
+example : defsOf (runScript (exCfg false) [] [.regDefer 1 .none, .regDefer 2 .none, .failLine, .regDefer 3 .none]).trace = [2, 1, 8, 7] := by decide +kernel
+example : defsOf (runScript (exCfg false) [] [.regDefer 1 .none, .skip, .regDefer 3 .none]).trace = [1, 8, 7] := by decide +kernel
+example : defsOf (runScript (exCfg false) [] [.regDefer 1 .none, .stop, .regDefer 3 .none]).trace = [1, 8, 7] := by decide +kernel
+example : defsOf (runScript (exCfg true) [] [.regDefer 1 .none, .failLine, .regDefer 3 .none]).trace = [3, 1, 8, 7] := by decide +kernel
+example : (runScript (exCfg false) [(["a"], []), (["a", "b"], [])] [.regDefer 1 .none]).verdict = .fail ∧
+    defsOf (runScript (exCfg false) [(["a"], []), (["a", "b"], [])] [.regDefer 1 .none]).trace = [] := by decide +kernel
+-- a deferred function that calls FailNow / panics: the older ones still run, the script fails
+example : defsOf (runScript (exCfg false) [] [.regDefer 1 .none, .regDefer 2 .failNow, .regDefer 3 .none]).trace = [3, 2, 1, 8, 7] ∧
+    (runScript (exCfg false) [] [.regDefer 1 .none, .regDefer 2 .failNow, .regDefer 3 .none]).verdict = .fail := by decide +kernel
+example : defsOf (runScript (exCfg false) [] [.regDefer 1 .panic, .regDefer 2 .none]).trace = [2, 1, 8, 7] ∧
+    (runScript (exCfg false) [] [.regDefer 1 .skip]).verdict = .skip := by decide +kernel
 
 /-- The chain that `Defer` builds (`func() { defer old(); f() }` around the previous chain) calls
-the functions newest first. -/
-theorem defer_chain_order : ∀ (ids : List Nat),
-    (ids.foldl (fun c id => Chain.link id c) Chain.nop).call = ids.reverse := by
-  intro ids
-  have := (runInv_start [] [] ids).chain
-  simpa using this
+ALL the functions, newest first, however each of them ends. -/
+theorem defer_chain_order : ∀ (l : List (Nat × Abort)),
+    (l.foldl (fun c x => Chain.link x.1 x.2 c) Chain.nop).call = (l.map (·.1)).reverse := by
+  intro l
+  have : ∀ (l : List (Nat × Abort)) (c : Chain) (done : List Nat), c.call = done.reverse →
+      (l.foldl (fun c x => Chain.link x.1 x.2 c) c).call = (done ++ l.map (·.1)).reverse := by
+    intro l
+    induction l with
+    | nil => intro c done h; simpa using h
+    | cons x rest ih =>
+      intro c done h
+      simp only [List.foldl_cons]
+      have := ih (Chain.link x.1 x.2 c) (done ++ [x.1]) (by simp [call_link, h])
+      simpa using this
+  simpa using this l Chain.nop [] rfl
+
+example : (Chain.link 3 .none (Chain.link 2 .panic (Chain.link 1 .failNow .nop))).call = [3, 2, 1] := by decide
 
 /-- For every script and every exit path: the log is flushed exactly once, as the last action of
 the run, and by then every background command the script started has been waited for (those still
